@@ -50,6 +50,51 @@ def c06(ctx):
         ctx.require(c)
 
 
+@prop("C04")
+def c04(ctx):
+    ans_states(ctx, ["TypeInv", "StateInv", "LawPushAfterPop", "LawBinary", "LawDecodeTotal"], "c04")
+    for c in ("binary_state", "binary_trailing_zero"):
+        ctx.require(c)
+
+
+def c08_ans(ctx):
+    ans_states(ctx, ["TypeInv", "StateInv", "LawImportExport"], "c08")
+    for c in ("get_binary_ok", "get_binary_err"):
+        ctx.require(c)
+
+
+def c10_ans(ctx):
+    ans_states(ctx, ["TypeInv", "LawDecodeTotal"], "c10")
+
+
+def c12_ans(ctx):
+    ans_states(ctx, ["TypeInv", "StateInv", "LawStepBound"], "c12")
+
+
+def c18_ans(ctx):
+    ans_states(ctx, ["TypeInv", "StateInv", "LawSizes", "LawBinary"], "c18")
+
+
+@prop("C08")
+def c08(ctx):
+    c08_ans(ctx)
+
+
+@prop("C10")
+def c10(ctx):
+    c10_ans(ctx)
+
+
+@prop("C12")
+def c12(ctx):
+    c12_ans(ctx)
+
+
+@prop("C18")
+def c18(ctx):
+    c18_ans(ctx)
+
+
 def selftest():
     return 0
 
